@@ -311,7 +311,11 @@ class ExprMixin:
 
     def contains(self, container: V, item: V):
         c = self.deref(container)
+        if isinstance(c, VOpt) and self.spec_mode:
+            c = c.val
         if isinstance(c, VStr):
+            if isinstance(item, VOpt) and self.spec_mode:
+                item = item.val
             if not isinstance(item, VStr):
                 raise Unsupported("non-string `in` string")
             return z3.Contains(c.t, item.t)
@@ -466,6 +470,8 @@ class ExprMixin:
     def subscript(self, base, idx):
         if isinstance(base, vals.VBottom) or isinstance(idx, vals.VBottom):
             return vals.BOTTOM
+        if isinstance(base, VNone) and self.spec_mode:
+            return vals.BOTTOM
         b = self.deref(base)
         if isinstance(b, VOpt):
             if self.spec_mode:
@@ -483,7 +489,7 @@ class ExprMixin:
                 raise Unsupported("symbolic index into tuple")
             if not (-len(b.items) <= i < len(b.items)):
                 if self.spec_mode:
-                    return NONE  # partial term under a (necessarily false) guard
+                    return vals.BOTTOM  # partial term under a (necessarily false) guard
                 self.raise_builtin("IndexError")
             return b.items[i]
         if isinstance(b, VList):
